@@ -17,13 +17,17 @@ re-derived from the real frontend on every run).  Modelled line by line:
 * `strip_inline_comments` on one line (`stripInline`): cut at the first `!` outside `'…'`/`"…"`, `rstrip`;
 * per operator, in `sorted` order of the pymbolic operator strings (`!= < <= == > >=`): the first line that
   contains the F90 symbol as a *substring* (after comment stripping), else the first line that contains it
-  after the *case-sensitive* `str.replace('.xx.', symbol)`, else `line[0]` raises `IndexError`;
+  after the case-insensitive `re.sub('\\.xx\\.', symbol, flags=re.I)` (since the fix of `ops-nonlower-spelling`; before:
+  the case-sensitive `str.replace`), else `line[0]` raises `IndexError`;
 * `_op_patterns[op].findall` on that single line (`findallF77`): leftmost non-overlapping matches of
   `(\.xx\.)|(symbol)` under `re.I`, `<`/`>` with the `(?!=)` look-ahead; every F77 match is one report.
 
-`fix_subroutine` calls `report.location.update_metadata(...)`, which no IR node has: `fixOutcome` is
-`raises` as soon as there is one report, and `untouched` (the file is not rewritten: no fixable report)
-otherwise.
+`fix_subroutine` (since the fix of `ops-fix-raises`) maps every reported node to `node.clone(source=None)`:
+`Fixer` rebuilds the body with `Transformer`, the backend regenerates exactly the reported nodes (all their lines,
+all their operators, reported or not) and copies everything else from `Source` (`write(conservative=True)`).
+`fixOutcome` is `ran` as soon as there is one report, `untouched` otherwise; `fixLines` is the text the running fixer
+writes, up to the layout of the regenerated statements (`squash`: blanks, `&`, line breaks and letter case of code are
+not modelled — they are the backend's, see C03/C06).
 
 ## S — what the fixer is MEANT to do (specification, labelled `spec…`)
 
@@ -120,6 +124,12 @@ def splitLines (l : Line) : List Line := splitLinesGo l []
 
 def rstrip (l : Line) : Line := (l.reverse.dropWhile isWs).reverse
 
+/-- `re.I` match of a lower-case ASCII literal at the head of `l` -/
+def ciStartsR : Line → Line → Bool
+  | [], _ => true
+  | _ :: _, [] => false
+  | p :: ps, c :: cs => p == c.toLower && ciStartsR ps cs
+
 /-- `str.replace(old, new)` (`old` non-empty): skip counter `k` = characters of a replaced match still to drop -/
 def replaceAll (old new : Line) : Nat → Line → Line
   | _, [] => []
@@ -127,6 +137,14 @@ def replaceAll (old new : Line) : Nat → Line → Line
   | 0, c :: cs =>
     if startsWith old (c :: cs) then new ++ replaceAll old new (old.length - 1) cs
     else c :: replaceAll old new 0 cs
+
+/-- `re.sub(re.escape(old), new, l, flags=re.I)` for a lower-case ASCII literal `old` (skip counter as in `replaceAll`) -/
+def replaceAllCi (old new : Line) : Nat → Line → Line
+  | _, [] => []
+  | k + 1, _ :: cs => replaceAllCi old new k cs
+  | 0, c :: cs =>
+    if ciStartsR old (c :: cs) then new ++ replaceAllCi old new (old.length - 1) cs
+    else c :: replaceAllCi old new 0 cs
 
 /-! ## R.2 `Source.find`, `Source.clone_lines` -/
 
@@ -225,7 +243,7 @@ def pickLine (lines : List Line) (k : Op) : Option Line :=
   match lines.filter (fun l => hasSub k.sym (stripInline l)) with
   | l :: _ => some l
   | [] =>
-    match lines.filter (fun l => hasSub k.sym (stripInline (replaceAll k.f77 k.sym 0 l))) with
+    match lines.filter (fun l => hasSub k.sym (stripInline (replaceAllCi k.f77 k.sym 0 l))) with
     | l :: _ => some l
     | [] => none
 
@@ -258,11 +276,11 @@ def detect : List Node → Option (List Report)
 
 inductive FixOutcome where
   | untouched      -- `file_report.fixable_reports` is empty: early return, the file is not rewritten
-  | raises         -- `AttributeError: … object has no attribute 'update_metadata'`
+  | ran            -- every reported node is replaced by `node.clone(source=None)` and the file is rewritten
 deriving DecidableEq, Repr
 
 def fixOutcome (reports : List Report) : FixOutcome :=
-  if reports.isEmpty then .untouched else .raises
+  if reports.isEmpty then .untouched else .ran
 
 /-! ## S — specification of the operator fixer -/
 
@@ -407,6 +425,42 @@ def uboundRemoved (args : List UArg) (calls : List ICall) : List Nat :=
   ((args.filter fun a => a.assumed && allDims calls a).flatMap fun a =>
     (List.range a.rank).filterMap fun d => condOfDim calls a (d + 1)).eraseDups
 
+/-! ## R.7 the text written by the running fixer (modulo layout) -/
+
+def inRanges (rs : List (Nat × Nat)) (i : Nat) : Bool := rs.any fun r => r.1 ≤ i && i ≤ r.2
+
+/-- the lines of reported nodes are fixed as the specification says, every other line is copied -/
+def fixLines (rs : List (Nat × Nat)) : Nat → List Line → List Line
+  | _, [] => []
+  | i, l :: ls => (if inRanges rs i then specFix .code l else l) :: fixLines rs (i + 1) ls
+
+/-- line ranges of the nodes that carry a report -/
+def reportedRanges (nodes : List Node) (reports : List Report) : List (Nat × Nat) :=
+  (nodes.filter fun n => reports.any (·.line == n.line0)).map fun n =>
+    (n.line0, n.line0 + (n.src.filter (· == '\n')).length)
+
+/-- layout-free reading of a text: code without blanks and `&` in lower case, literals verbatim, comments dropped
+(their `!` kept) -/
+def squash (ts : List Tok) : Line :=
+  ts.flatMap fun t => match t with
+    | .op _ a b => ['.', a.toLower, b.toLower, '.']
+    | .ch .code c => if isWs c || c == '&' then [] else [c.toLower]
+    | .ch (.str _) c => [c]
+    | .ch .com _ => []
+
+def joinLines : List Line → Line
+  | [] => []
+  | [l] => l
+  | l :: ls => l ++ '\n' :: joinLines ls
+
+/-- `text.split('\n')` -/
+def splitNl : Line → Line → List Line
+  | [], cur => [cur.reverse]
+  | c :: cs, cur => if c = '\n' then cur.reverse :: splitNl cs [] else splitNl cs (c :: cur)
+
+def fixedSquash (text : Line) (nodes : List Node) (reports : List Report) : Line :=
+  squash (toks .code (joinLines (fixLines (reportedRanges nodes reports) 1 (splitNl text []))))
+
 /-! ## decidable known-finding classes (mirrored in `harness/props/c43.py`) -/
 
 def strText (ts : List Tok) : Line :=
@@ -419,15 +473,16 @@ def codeChars (ts : List Tok) : Line :=
     | .ch .code c => some c
     | _ => none
 
+/-- code characters with operator tokens in their spelling -/
+def codeCharsAll (ts : List Tok) : Line :=
+  ts.flatMap fun t => match t with
+    | .ch .code c => [c]
+    | .op _ a b => ['.', a, b, '.']
+    | _ => []
+
 def hasOpText : Line → Bool
   | [] => false
   | c :: cs => (opAt (c :: cs)).isSome || hasOpText cs
-
-/-- `ops-nonlower-spelling`: an F77 operator in code is written with an upper-case letter -/
-def KnownNonLower (l : Line) : Bool :=
-  (toks .code l).any fun t => match t with
-    | .op _ a b => a.isUpper || b.isUpper
-    | _ => false
 
 /-- `ops-lookalike-in-literal`: a character literal contains `<`, `>`, `=` or `.xx.` -/
 def KnownLiteral (l : Line) : Bool :=
@@ -462,5 +517,52 @@ occur somewhere: the span `(find(first piece), find(last piece) + len)` is then 
 def KnownSpan (nodes : List Node) : Bool :=
   nodes.any fun n => n.exprs.any fun e =>
     (find (lower e.str) (lower n.src)).isNone && (sourceFind n.src e.str).isSome
+
+/-! ### classes of the running fixer (conservative write-back of a file with regenerated statements) -/
+
+/-- code part of a line (before the comment), blanks stripped on the right, lower case -/
+def lineCode (l : Line) : Line := lower (rstrip ((codeCharsAll (toks .code l)).filter (· != '!')))
+
+def endsWith (suf l : Line) : Bool := startsWith suf.reverse l.reverse
+
+/-- the line starts with keyword `kw` (any case) followed by a non-word character -/
+def lineKw (kw : String) (l : Line) : Bool := kwAt kw.toList (l.dropWhile isWs)
+
+def startsIf (l : Line) : Bool :=
+  lineKw "if" l && (match ((l.dropWhile isWs).drop 2).dropWhile isWs with | '(' :: _ => true | _ => false)
+
+/-- `fix-header-continuation-lost`: the header of an IF / ELSE IF / DO WHILE construct is continued with `&` -/
+def KnownHeaderContinued (text : Line) : Bool :=
+  (splitNl text []).any fun l =>
+    (lineKw "if" l || lineKw "else" l || lineKw "do" l) && endsWith ['&'] (lineCode l)
+
+/-- `fix-comment-displaced`: a trailing comment on a statement that is not an assignment, or on a line of a continued statement -/
+def KnownTrailingComment (text : Line) : Bool :=
+  (splitNl text []).any fun l =>
+    (lineKw "if" l || lineKw "else" l || lineKw "do" l || lineKw "call" l || lineKw "print" l || lineKw "end" l ||
+      endsWith ['&'] (lineCode l) || startsWith ['&'] ((lineCode l).dropWhile isWs)) &&
+    (toks .code l).any (fun t => match t with | .ch .com _ => true | _ => false)
+
+def isEndDo (l : Line) : Bool := (lineCode l).filter (fun c => !isWs c) == "enddo".toList
+
+/-- `fix-enclosing-while-regenerated`: a reported statement in the body of a DO construct that is not itself reported
+(the conservative writer has no INVALID_CHILDREN branch for `WhileLoop`: header and END DO are regenerated) -/
+def enclosingDo (rs : List (Nat × Nat)) : Nat → List Line → Bool
+  | _, [] => false
+  | i, l :: rest =>
+    (lineKw "do" l && !inRanges rs i &&
+      (let e := i + 1 + (rest.takeWhile (fun x => !isEndDo x)).length
+       rs.any fun r => i < r.1 && r.2 < e)) || enclosingDo rs (i + 1) rest
+
+def KnownEnclosingDo (text : Line) (rs : List (Nat × Nat)) : Bool := enclosingDo rs 1 (splitNl text [])
+
+/-- `fix-nested-report-skipped`: a reported node lies inside another reported node (ELSE IF branch, body statement) -/
+def KnownNestedReport (rs : List (Nat × Nat)) : Bool :=
+  rs.any fun r => rs.any fun q => (q.1 < r.1 && r.2 ≤ q.2) || (q.1 ≤ r.1 && r.2 < q.2)
+
+/-- `fix-literal-requoted`: a reported node contains a `"…"` literal -/
+def KnownDoubleQuote (nodes : List Node) (reports : List Report) : Bool :=
+  (nodes.filter fun n => reports.any (·.line == n.line0)).any fun n =>
+    (toks .code n.src).any fun t => match t with | .ch (.str '"') _ => true | _ => false
 
 end LokiModel.C43
